@@ -242,12 +242,12 @@ PROPS["C19"] = dict(
 
 PROPS["C04"] = dict(
     level="proof",
-    technique="Lean 4 theorems on the model (decoded vectors within the cap => tree-hash precondition for every parsed block; bounded VarInt reads; extra loop terminates; allocation-ledger bound closed under the decoder combinators and instantiated on the worst vector nesting) + isolated execution of every entry point (child process, catch_unwind, time limit, counting allocator) compared with the model's accept/reject",
-    level_text="PARTIAL. Proved on the model: C04_vec_cap (a capped vector decoder returns exactly n elements with n*size_of <= CAP), C04_treehash_pre / C04_parsed_block_root_no_panic (every parsed block lists <= 2^20 hashes, so tree_hash's asserts and indexings cannot fire: the model of tree_hash returns `some` = no panic), C04_varint_bounded (1..10 bytes), C04_extra_total (the extra loop terminates on every input), C04_alloc_bind / C04_alloc_vec (ledger bound peak <= A + B*bytes closed under sequencing and capped pre-allocating vectors), C04_alloc_bound_tx / C04_alloc_bound_block (instrumented decoders of the WHOLE transaction and block - with_capacity reservations after their cap check, push-grown vectors with growth factor 4 - compute exactly the model's result and keep peak <= 2*CAP + 88*|b| on success and failure), C04_alloc_released. All model decoders are total Lean functions (structural recursion or fuel proved sufficient). What the model cannot exhibit - panics inside dependencies (dalek, tiny-keccak, base58-monero, hex, fixed-hash, std formatting), stack exhaustion, allocator/OS behaviour, real time - is observed by running every entry point and every public operation on parsed values in a child process under catch_unwind, a 20 s limit and a counting allocator: outcome must equal the model's accept/reject (never PANIC/ABORT/TIMEOUT) and peak heap must stay <= 2*CAP + 4 MiB + 160*|input|. Session 4: the data-dependent panic sites are EXPLICIT in Model/Panics.lean (slices, indices, str slices with char boundaries, machine-integer + and -) and proved unreachable for every input, the panic-explicit functions being proved equal to the total models: C04_no_panic_address(_type), _amount_parser, _fmt_piconero, _signed_to_string, _signed_from_str, _padding, _varint, _ring_size, _tx (whole transaction decoder), _prunable (public decoder, every usize argument — stating it exposed a genuine overflow panic, repaired by a fix commit), C04_raw_from_parsed_extra_no_panic.",
+    technique="Lean 4 theorems on the model (decoded vectors within the cap => tree-hash precondition for every parsed block; bounded VarInt reads; extra loop terminates; allocation-ledger bound closed under the decoder combinators and instantiated on the whole transaction / block decoder, the ledger's peak compared with the measured parse-only peak heap) + isolated execution of every entry point (child process, catch_unwind, time limit, counting allocator) compared with the model's accept/reject",
+    level_text="PARTIAL. Proved on the model: C04_vec_cap (a capped vector decoder returns exactly n elements with n*size_of <= CAP), C04_treehash_pre / C04_parsed_block_root_no_panic (every parsed block lists <= 2^20 hashes, so tree_hash's asserts and indexings cannot fire: the model of tree_hash returns `some` = no panic), C04_varint_bounded (1..10 bytes), C04_extra_total (the extra loop terminates on every input), C04_alloc_bind / C04_alloc_vec (ledger bound peak <= A + B*bytes closed under sequencing and capped pre-allocating vectors), C04_alloc_bound_tx / C04_alloc_bound_block / C04_alloc_bound_prefix (instrumented decoders of the WHOLE transaction, block and prefix - with_capacity reservations after their cap check, push-grown vectors with growth factor 4, the UNCAPPED scratch vector of VarInt::consensus_decode charged while the VarInt is decoded (C04_alloc_bound_varint; on 0xff^n the ledger reports max 8 (4n) bytes: C04_alloc_ledger_counts_varint_scratch) - compute exactly the model's result and keep the ledger's peak <= 2*CAP + 96*|b| (prefix: 48*|b|) on success and failure), C04_alloc_released (the drop-on-error semantics assumed in the ledger combinators, read back - not derived). The ledger omits the input buffer, reader, error values, stack, allocator overhead and whatever the operations on parsed values allocate; it is tied to the code by c04_ledger lines (measured parse-only peak <= ledger peak + 256 bytes). All model decoders are total Lean functions (structural recursion or fuel proved sufficient). What the model cannot exhibit - panics inside dependencies (dalek, tiny-keccak, base58-monero, hex, fixed-hash, std formatting), stack exhaustion, allocator/OS behaviour, real time - is observed by running every entry point and every public operation on parsed values in a child process under catch_unwind, a 20 s limit and a counting allocator: outcome must equal the model's accept/reject (never PANIC/ABORT/TIMEOUT) and peak heap must stay <= 2*CAP + 4 MiB + 160*|input|. Session 4: the data-dependent panic sites are EXPLICIT in Model/Panics.lean (slices, indices, str slices with char boundaries, machine-integer + and -) and proved unreachable for every input, the panic-explicit functions being proved equal to the total models: C04_no_panic_address(_type), _amount_parser, _fmt_piconero, _signed_to_string, _signed_from_str, _padding, _varint (one panic site, split_last().unwrap(); the shift int << 7 is a wrapping shift whose losslessness is part of the value claim), _ring_size (the bare index expression panics exactly on the empty list; guarded it cannot), _tx (whole transaction decoder), _prunable (public decoder, every usize argument, column count computed with the operator the translator reads from the source — stating it exposed a genuine overflow panic, repaired by a fix commit; C04_prunable_needs_saturating_add: with `1 + inputs` the model panics, with wrapping_add it accepts what the total model refuses), _signed_from_str (operand of the negation is the wrapped cast `piconero as i64`; the proof uses the > i64::MAX test, C04_signed_from_str_needs_guard exhibits the panic without it), C04_raw_from_parsed_extra_no_panic.",
     level_note="Trusted: Lean kernel; model/Rust correspondence differential; the isolated runs sample the input space (valid, mutated, truncated at every position, declared-length attacks at every position and nested, random bytes, text inputs incl. invalid UTF-8 and 100 kB strings). Scanning time is linear in |major|x|minor| by the caller's choice of ranges; the harness uses small ranges.",
     design_ref="DESIGN.md §6 C04",
-    rule="~10k (quick) / ~100k (thorough) isolated runs over 20 entry points; non-trivial = inputs that parse (all public operations are then run on the value).",
-    assumptions=["the ledger charges what the Rust source allocates explicitly (Vec capacities); allocator overhead and temporaries of operations on parsed values are covered by the measured bound only", "dependencies do not panic on the sampled inputs"],
-    gen_items=["CAP"],
+    rule="~34k (quick) / ~250k (thorough) isolated runs over 21 entry points; non-trivial = inputs that parse (all public operations are then run on the value).",
+    assumptions=["the ledger charges what the Rust source allocates explicitly (Vec capacities incl. the VarInt scratch vector); the input buffer, error values, allocator overhead and temporaries of operations on parsed values are covered by the measured bound only", "an Err return drops every local (live = 0 after a failure is written into the ledger combinators)", "dependencies do not panic on the sampled inputs"],
+    gen_items=["CAP", "mgCols"],
     panic_inventory=True,
 )
